@@ -236,14 +236,20 @@ def run(ck, ix, tier):
         ck.check(why is None, "G-EXH", "_parse_wrap_args|definition-iff-exponent-1-and-new-name", f.loc(x), "a reference defines a name only with exponent 1 and when the name is new",
                  f"`{cond}`: {why}: '=A**2' listed before '=A' would be taken as the definition of A")
     # dependent specifications only use defined names: a ValueError is raised where `set(names of SPECS[i][0]) <= DEFINED` fails
-    subset = [f"set(_A.keys()) <= {DEFINED or '_D'}", f"set(_A) <= {DEFINED or '_D'}", f"_A.keys() <= {DEFINED or '_D'}", f"set(_A.keys()).issubset({DEFINED or '_D'})", f"set(_A).issubset({DEFINED or '_D'})",
-              f"{DEFINED or '_D'} >= set(_A.keys())", f"{DEFINED or '_D'} >= set(_A)", f"{DEFINED or '_D'}.issuperset(_A.keys())", f"{DEFINED or '_D'}.issuperset(_A)"]
+    # (spelled as a failed subset test, as any(name not in DEFINED ...) or as a failed all(name in DEFINED ...))
+    D_ = DEFINED or "_D"
+    views = ("_A.keys()", "_A", "set(_A.keys())", "set(_A)")
+    undefined = [(pat, False) for pat in (f"set(_A.keys()) <= {D_}", f"set(_A) <= {D_}", f"_A.keys() <= {D_}", f"set(_A.keys()).issubset({D_})", f"set(_A).issubset({D_})",
+                                          f"{D_} >= set(_A.keys())", f"{D_} >= set(_A)", f"{D_}.issuperset(_A.keys())", f"{D_}.issuperset(_A)")]
+    for v_ in views:
+        undefined += [(f"any(_N not in {D_} for _N in {v_})", True), (f"any([_N not in {D_} for _N in {v_}])", True),
+                      (f"all(_N in {D_} for _N in {v_})", False), (f"all([_N in {D_} for _N in {v_}])", False)]
     okd = False
     for r in [r for r in walk_local(f.node) if isinstance(r, ast.Raise) and r.exc is not None and "ValueError" in norm(r.exc) and not shape.dead(r, f.node)]:
         it = enclosing_iteration(r, f.node)
         if it is None or norm(it[1]) != roles["dep"][0] or not isinstance(it[0], ast.Name):
             continue
-        okd = okd or any(known(r, f.node, pat, False, where=lambda b, R: R("_A") == f"{SPECS}[{it[0].id}][0]") is not None for pat in subset)
+        okd = okd or any(known(r, f.node, pat, tr, where=lambda b, R: R("_A") == f"{SPECS}[{it[0].id}][0]") is not None for pat, tr in undefined)
     ck.check(okd, "G-DOM", "_parse_wrap_args|dependent-names-must-be-defined", f.loc(), "dependent specifications using undefined names are rejected", "the check that dependent specifications only use defined names is gone")
 
     # ------------------------------------------------------------ _to_units_container: '=X' is a reference to X
@@ -368,7 +374,7 @@ def run(ck, ix, tier):
     if ok:
         sa_, sb_ = signature_walk(app[0], c, npos), signature_walk(back[0].value, c, npos)
         ok = sa_ is not None and sb_ is not None and sa_[2] and sb_[2] and names_it(app[0].slice, c.node, sa_[0]) and names_it(back[0].targets[0].slice, c.node, sb_[0]) \
-            and rnorm(back[0].value, c.node) in [f"values[{i_}]" for i_ in sb_[1]]
+            and (rnorm(back[0].value, c.node) in [f"values[{i_}]" for i_ in sb_[1]] or (isinstance(back[0].value, ast.Name) and sb_[4].get(back[0].value.id) == "values"))
         # `len(values)` must be read before anything is appended: only through a name assigned at the top of the function
         grow = min([x.lineno for x in app] + [l.lineno for l in (l1, l2, l3)])
         ok = ok and all(getattr(getattr(x, "_parent", None), "lineno", grow) < grow and getattr(getattr(x, "_parent", None), "_parent", None) is c.node for x, _ in find_expr(c.node, "len(values)"))
@@ -388,7 +394,7 @@ def run(ck, ix, tier):
         if sw is None:
             okf = False
             continue
-        names, _index, absent, objs = sw
+        names, _index, absent, objs, _aligned = sw
         key_ok = names_it(st.targets[0].slice, fa.node, names) and any(rnorm(st.value, fa.node) == f"{P}.default" for P in objs)
         has_default = any(known(st, fa.node, pat, False) is not None for P in objs for pat in (f"{P}.default == Parameter.empty", f"{P}.default is Parameter.empty", f"Parameter.empty == {P}.default", f"{P}.default == {P}.empty", f"{P}.default is {P}.empty"))
         not_passed = any(known(st, fa.node, f"{k_} in kwargs", False) is not None for k_ in names)
